@@ -278,7 +278,7 @@ func execute(d *Data, ref *compiled, refRun *runResult, prodOps string, maxOut i
 	for i := 0; i < n; i++ {
 		if got.outs[i] != refRun.outs[i] {
 			class := "output-differs"
-			if strings.Contains(got.outs[i], "setpath(") && !strings.Contains(refRun.outs[i], "setpath(") {
+			if strings.Count(got.outs[i], "setpath(") > strings.Count(refRun.outs[i], "setpath(") {
 				// the listed finding, possibly embedded in a caught value or a preview: the optimised text
 				// carries the setpath wrapper and the difference vanishes when only the constant-path
 				// assignment shortcut is switched off on top of these coins
@@ -361,6 +361,17 @@ func (Prop) Exec(c kernel.Case) *kernel.Violation {
 
 // directed programs biased to the rewrite preconditions and their near misses.
 var directed = []struct{ Src, In string }{
+	{`.[1:2], .[1.5:2.5], .[-1:], .[null:1], .[1:null], .[:-1], .[10:], .[-10:2], .[1:1], .[2:1]`, `[1,2,3,4]`},
+	{`.[1:2], .[1.5:2.5], .[-1:], .[null:1], .[:-1], .[10:]`, `"abcdef"`},
+	{`.[1:2], .[:1], .[1:]`, `null`},
+	{`try (.[1:2]) catch ., try (.["a":]) catch ., try (.[:{}]) catch .`, `{"a":1}`},
+	{`path(.[1:2]), path(.[-1:]), path(.[1.5:]), path(.[:null])`, `[1,2,3]`},
+	{`.[1:2] = ["x"], (.[1:] |= map(. + 1)), del(.[:1]), (.[1.5:2.5] = [0])`, `[1,2,3]`},
+	{`path(.[.a]), path(.[.a:]), path(.[:.a]), path(getpath(["b"])), path(.b[.a])`, `{"a":1,"b":[1,2,3]}`},
+	{`. as $x | path(.b[$x.a]), path(.b[first(.a, 0)]), path(.b[.a, 0])`, `{"a":1,"b":[1,2,3]}`},
+	{`[paths], [path(..)], [path(.b[]?)], [path(.b[1:][])]`, `{"a":1,"b":[1,2,3]}`},
+	{`.b[.a] = 9, (.b[.a] |= . + 1), del(.b[.a]), (.b[.a:] = []), (.[.k] = 1)?`, `{"a":1,"b":[1,2,3],"k":"z"}`},
+	{`(.a as $x | .b[$x]), (.a as [$x] ?// $x | .b[$x]), (. as {a: $i} | .b[$i:])`, `{"a":1,"b":[1,2,3]}`},
 	{`if . then 1 else (2 | tostring) end`, `false`},
 	{`if . then 1 else 2 + 1 end, if . then (1 | tostring) else 2 end, if . then 1 else (2, 3) end`, `false`},
 	{`if . then "a" else ("b" | length) end, if . then null else [1] | .[0] end`, `null`},
